@@ -10,6 +10,10 @@ package main
 //   txs:   a begin is recorded ⇔ the model enables Begin; commit/rollback only if the model enables one
 //   keeps: Statement.SQL is non-empty after the run ⇔ model.keepsSQL (for runs that built a statement)
 //   finisher level: batched finisher exposes nothing / explicit transaction under ToSQL flags (F25/F26 probes)
+//
+// The model is instantiated with the regenerated fact Gen.beginSkipsDryRun of the tree under check (which DB.Begin
+// exists: Model/DryRun.lean `txReaches`), so the same judgements hold on a tree with and without the repair of F25: with it
+// a DryRun run records no begin/commit at all, and the model enables none.
 
 import (
 	"encoding/json"
